@@ -87,7 +87,7 @@ func gen(g *hx.Gen) {
 		}
 		for _, gr := range gx.IsoClasses(n) {
 			emit(gr, nv)
-			if n <= 7 {
+			if n <= 6 || (n == 7 && (g.Thorough() || r.Chance(1, 2))) {
 				emitRelabelled(gr, 3)
 			}
 		}
